@@ -67,6 +67,11 @@ class BoolList(list):
     """A boolean tensor (result of a comparison / all / any / ~): used as an index it is a mask, not a list of positions."""
 
 
+def _mask(z):
+    """z as a boolean tensor at every level (rows of a mask are masks too)"""
+    return BoolList([_mask(e) for e in z]) if isinstance(z, list) else z
+
+
 class PySeq(list):
     """A python sequence (tuple / list display, range, shape) as opposed to a tensor value: true iff non-empty."""
 
@@ -375,7 +380,70 @@ class Folder:
         except Unfoldable:
             return None
 
+    #: operations that rearrange / select elements: a boolean tensor stays boolean
+    _MASK_KEEP = frozenset({"reshape", "view", "flatten", "clone", "contiguous", "detach", "cpu", "cuda", "squeeze", "unsqueeze", "permute", "transpose", "swapaxes", "t", "expand", "repeat", "repeat_interleave", "tile", "flip", "unbind", "roll", "T", "mT", "bool", "logical_not"})
+    #: conversions to a numeric type: the result is numbers, not a mask
+    _MASK_DROP = frozenset({"float", "long", "int", "double", "half", "to", "type", "sum", "cumsum"})
+
     def fold(self, node: ast.AST):
+        """_fold plus dtype bookkeeping for boolean tensors: used as an index a boolean tensor is a mask and a numeric tensor a
+        list of positions, so rearrangements of a mask must stay masks and numeric conversions of a mask must not."""
+        recv = None
+        if isinstance(node, ast.Call) and isinstance(node.func, ast.Attribute) and (node.func.attr in self._MASK_KEEP or node.func.attr in self._MASK_DROP) and not (isinstance(node.func.value, ast.Name) and node.func.value.id in ("torch", "np", "numpy", "math", "self")):
+            recv, kind = node.func.value, "method"
+        elif isinstance(node, ast.Attribute) and node.attr in ("T", "mT"):
+            recv, kind = node.value, "attr"
+        elif isinstance(node, ast.Subscript):
+            recv, kind = node.value, "sub"
+        elif isinstance(node, ast.Call) and isinstance(node.func, ast.Attribute) and isinstance(node.func.value, ast.Name) and node.func.value.id == "torch" and node.func.attr in ("reshape", "flatten", "squeeze", "unsqueeze", "permute", "transpose", "flip", "clone", "roll", "logical_not", "logical_and", "logical_or", "logical_xor", "stack", "cat", "eq", "ne", "gt", "lt", "ge", "le", "isclose") and node.args:
+            kind = "torchfn"
+            r = self._fold(node)
+            if node.func.attr in ("logical_and", "logical_or", "logical_xor", "logical_not", "eq", "ne", "gt", "lt", "ge", "le", "isclose"):
+                return _mask(r) if isinstance(r, list) and not isinstance(r, PySeq) else r
+            a0 = self._peek(node.args[0])
+            is_mask = isinstance(a0, BoolList) or (isinstance(a0, list) and a0 and all(isinstance(x_, BoolList) for x_ in a0))
+            return _mask(r) if is_mask and isinstance(r, list) and not isinstance(r, PySeq) else r
+        if recv is None:
+            return self._fold(node)
+        try:
+            rv = self.fold(recv)
+        except Unfoldable:
+            return self._fold(node)  # receivers outside the value domain (modules, objects handled by hooks)
+        if not isinstance(rv, (list, int, float, complex, bool)) or isinstance(rv, (PySeq, str)):
+            return self._fold(node)
+        if isinstance(recv, ast.Name) and recv.id in self.names:
+            node2 = node
+        else:
+            # evaluate the receiver once: bind it to a temporary and evaluate the operation on that
+            self._tmp_depth = getattr(self, "_tmp_depth", 0) + 1
+            tmp = f"__recv{self._tmp_depth}"
+            self.names[tmp] = rv
+            nm_ = ast.Name(id=tmp, ctx=ast.Load())
+            if kind == "method":
+                node2 = ast.Call(func=ast.Attribute(value=nm_, attr=node.func.attr, ctx=ast.Load()), args=node.args, keywords=node.keywords)
+            elif kind == "attr":
+                node2 = ast.Attribute(value=nm_, attr=node.attr, ctx=ast.Load())
+            else:
+                node2 = ast.Subscript(value=nm_, slice=node.slice, ctx=ast.Load())
+            ast.copy_location(node2, node)
+        try:
+            r = self._fold(node2)
+        finally:
+            if node2 is not node:
+                self.names.pop(tmp, None)
+                self._tmp_depth -= 1
+        if isinstance(rv, BoolList) and isinstance(r, list) and not isinstance(r, PySeq):
+            drop = kind == "method" and node.func.attr in self._MASK_DROP and not (node.func.attr in ("to", "type") and not any(unparse(a_).split(".")[-1] in ("long", "int", "int8", "int16", "int32", "int64", "uint8", "float", "float16", "float32", "float64", "double", "half", "bfloat16", "complex64") for a_ in list(node.args) + [k.value for k in node.keywords]))
+            if drop:
+
+                def _num(z):
+                    return [_num(e) for e in z] if isinstance(z, list) else (int(z) if isinstance(z, bool) else z)
+
+                return _num(r)
+            return _mask(r)
+        return r
+
+    def _fold(self, node: ast.AST):
         if isinstance(node, ast.Constant):
             if isinstance(node.value, (int, float, complex, bool, str)) or node.value is None:
                 return node.value
@@ -518,7 +586,7 @@ class Folder:
                 return not truth(v)
             if isinstance(node.op, ast.Invert):
                 r_ = _ew(lambda x: (not x) if isinstance(x, bool) else (1 - x if x in (0, 1) else ~x), v)
-                return BoolList(r_) if isinstance(v, BoolList) else r_
+                return _mask(r_) if isinstance(v, BoolList) else r_
             raise Unfoldable("unary")
         if isinstance(node, ast.BinOp):
             a, b = self.fold(node.left), self.fold(node.right)
@@ -534,14 +602,24 @@ class Folder:
             if isinstance(node.op, ast.Add) and isinstance(a, PySeq) and isinstance(b, PySeq):
                 return PySeq(list(a) + list(b))
             f = ops.get(type(node.op))
+            if isinstance(a, BoolList) and isinstance(b, BoolList) and isinstance(node.op, (ast.Add, ast.Sub, ast.Mult, ast.Div, ast.Pow, ast.Mod, ast.FloorDiv)):
+                raise Unfoldable("arithmetic between two boolean tensors (torch keeps the boolean type: + is OR, * is AND, - is an error)")
             if isinstance(node.op, ast.MatMult):
                 return self.fold(ast.Call(func=ast.Attribute(value=ast.Name(id="torch", ctx=ast.Load()), attr="matmul", ctx=ast.Load()), args=[node.left, node.right], keywords=[]))
             if f is None:
                 raise Unfoldable("operator")
             try:
-                return _ew(f, a, b)
+                r_ = _ew(f, a, b)
             except (TypeError, ZeroDivisionError) as exc:
                 raise Unfoldable(str(exc))
+            if isinstance(node.op, (ast.BitAnd, ast.BitOr, ast.BitXor)) and isinstance(r_, list) and all(isinstance(x_, (BoolList, bool)) for x_ in (a, b)):
+                # a logical combination of masks is a mask
+
+                def _bl(z):
+                    return BoolList([_bl(e) for e in z]) if isinstance(z, list) else int(bool(z))
+
+                return _bl(r_)
+            return r_
         if isinstance(node, ast.BoolOp):
             vals = [self.fold(v) for v in node.values]
             if any(isinstance(v, list) for v in vals):
@@ -640,7 +718,7 @@ class Folder:
             f = {ast.Lt: lambda x, y: int(x < y), ast.Gt: lambda x, y: int(x > y), ast.LtE: lambda x, y: int(x <= y), ast.GtE: lambda x, y: int(x >= y), ast.Eq: lambda x, y: int(x == y), ast.NotEq: lambda x, y: int(x != y)}[type(node.ops[0])]
             try:
                 r_ = _ew(f, a, b)
-                return BoolList(r_) if isinstance(r_, list) else r_
+                return _mask(r_) if isinstance(r_, list) else r_
             except TypeError as exc:
                 raise Unfoldable(str(exc))
         if isinstance(node, ast.Call) and not node.keywords and isinstance(node.func, (ast.Name, ast.Attribute)):
@@ -823,6 +901,16 @@ class Folder:
                         d_ = d % (len(shp_) + 1)
                         return _reshape(v, shp_[:d_] + [1] + shp_[d_:])
                 raise Unfoldable("unsqueeze")
+            if m == "unbind" and len(node.args) + len(node.keywords) <= 1 and all(k.arg == "dim" for k in node.keywords):
+                v = self.fold(node.func.value)
+                d_ = self.fold(node.args[0]) if node.args else (self.fold(node.keywords[0].value) if node.keywords else 0)
+                if isinstance(v, list) and not isinstance(v, PySeq) and isinstance(d_, int) and not isinstance(d_, bool):
+                    rank_ = _depth(v)
+                    if -rank_ <= d_ < rank_:
+                        d_ %= rank_
+                        moved_ = _permute(v, [d_] + [a_ for a_ in range(rank_) if a_ != d_]) if rank_ > 1 else v
+                        return PySeq(list(moved_))
+                raise Unfoldable("unbind arguments")
             if m in ("transpose", "swapaxes") and len(node.args) == 2 and not node.keywords:
                 v = self.fold(node.func.value)
                 a_, b_ = self.fold(node.args[0]), self.fold(node.args[1])
@@ -872,7 +960,7 @@ class Folder:
                     except (TypeError, IndexError) as exc:
                         raise Unfoldable(f"any/all over an axis: {exc}")
                     res_ = _ew((lambda c: int(c > 0)) if m == "any" else (lambda c: int(c == size_)), cnt_)
-                    return BoolList(res_) if isinstance(res_, list) else bool(res_)
+                    return _mask(res_) if isinstance(res_, list) else bool(res_)
                 raise Unfoldable("any/all over an axis")
             if m in ("expand", "expand_as", "broadcast_to") and node.args:
                 v = self.fold(node.func.value)
